@@ -14,6 +14,7 @@ package c05
 import (
 	"context"
 	"fmt"
+	"strconv"
 	"strings"
 
 	"github.com/risor-io/risor"
@@ -73,6 +74,14 @@ func options(kind string, out *strings.Builder) []risor.Option {
 		opts = append(opts, risor.WithGlobals(map[string]any{"ga": 1, "gb": "two", "gc": []int{3}}))
 	case "deny":
 		opts = append(opts, risor.WithoutGlobals("exec", "os.exit", "math.abs", "strings.repeat"))
+	case "gomap5", "gomap6", "gomap7", "gomap8", "gomap9", "gomap10", "gomap11", "gomap12", "gomap13", "gomap14", "gomap15", "gomap16", "gomap17", "gomap18":
+		// a Go map of that many entries as a global (converted entry by entry)
+		n, _ := strconv.Atoi(strings.TrimPrefix(kind, "gomap"))
+		gm := map[string]any{}
+		for i := 0; i < n; i++ {
+			gm[fmt.Sprintf("g%c%d", 'z'-byte(i%5), i)] = i
+		}
+		opts = append(opts, risor.WithGlobals(map[string]any{"gm": gm}))
 	case "badglobals":
 		// two globals that risor cannot represent: which one the error names is the host's input, not map order
 		opts = append(opts, risor.WithGlobals(map[string]any{"ga": make(chan int), "gb": complex(1, 2), "gc": 3}))
@@ -322,6 +331,20 @@ func corpus(thorough bool) []caseT {
 	} {
 		add(fmt.Sprintf("mounts%d", i), src, "mounts")
 		add(fmt.Sprintf("mounts3-%d", i), src, "mounts3")
+	}
+	// maps and sets of every size from 5 to 18 entries (library code switches algorithm by size - an insertion sort
+	// below a threshold, a different hash layout above 8): what they print, list and iterate is fixed at every size
+	for n := 5; n <= 18; n++ {
+		var kv, el []string
+		for i := 0; i < n; i++ {
+			k := fmt.Sprintf("k%c%d", 'z'-byte(i%7), (i*5)%n)
+			kv = append(kv, fmt.Sprintf("%q: %d", k+fmt.Sprint(i), i))
+			el = append(el, fmt.Sprintf("%q", k+fmt.Sprint(i)))
+		}
+		m, st := "{"+strings.Join(kv, ", ")+"}", "{"+strings.Join(el, ", ")+"}"
+		add(fmt.Sprintf("size%d-map", n), "m := "+m+"\nout := []\nfor k, v := range m { out.append(k) }\n[string(m), keys(m), m.values(), m.items(), out, sprintf(\"%v\", m), json.marshal(m)]", "default")
+		add(fmt.Sprintf("size%d-set", n), "s := "+st+"\nout := []\nfor v in s { out.append(v) }\n[string(s), list(s), sorted(s), out, sprintf(\"%v\", s)]", "default")
+		add(fmt.Sprintf("size%d-conv", n), "try(func() { return gm }, func(e) { return string(e) })", fmt.Sprintf("gomap%d", n))
 	}
 	add("badglobals", "1", "badglobals")
 	add("badnested", "1", "badnested")
